@@ -69,10 +69,10 @@ RightType == Ev.id = cur.id /\ cur.wf
 -----------------------------------------------------------------------------
 Case ==
   /\ IsObs("case")
-  /\ cur' = Ev
   /\ eqm' = <<>> /\ cmpm' = <<>>
   /\ IF Ev.wf /\ WellFormed(Ev.t) /\ Ev.pool = Pool(Ev.t)
-     THEN /\ ref' = [a \in DOMAIN Ev.pool |-> [b \in DOMAIN Ev.pool |-> Eq(NoEnv, Ev.t, Ev.pool[a].v, Ev.pool[b].v)]]
+     THEN /\ cur' = Ev
+          /\ ref' = [a \in DOMAIN Ev.pool |-> [b \in DOMAIN Ev.pool |-> Eq(NoEnv, Ev.t, Ev.pool[a].v, Ev.pool[b].v)]]
           /\ UNCHANGED bad
      ELSE /\ ref' = <<>>
           /\ cur' = [Ev EXCEPT !.wf = FALSE]
